@@ -41,8 +41,8 @@ class RuleUnit:
 SPEC_PROPS = collections.defaultdict(set)
 for _n, _ps in {
     "ruleToday": "C03", "ruleNow": "C03", "ruleTomorrow": "C03", "ruleAfterTomorrow": "C03", "ruleYesterday": "C03",
-    "ruleBeforeYesterday": "C03", "ruleEOM": "C03", "ruleEOY": "C03", "ruleAtDOW": "C03", "ruleNextDOW": "C03",
-    "ruleDOWNextWeek": "C03", "ruleLatentDOW": "C03 C04", "ruleNamedDOW": "C03 C04",
+    "ruleBeforeYesterday": "C03", "ruleEOM": "C03", "ruleEOY": "C03", "ruleAtDOW": "C03 C20", "ruleNextDOW": "C03",
+    "ruleDOWNextWeek": "C03", "ruleLatentDOW": "C03 C04 C20", "ruleNamedDOW": "C03 C04",
     "rulePOD": "C04 C06 C19", "ruleLatentDOM": "C04", "ruleLatentDOY": "C04", "ruleLatentPOD": "C04", "ruleDOWDOM": "C04",
     "ruleDOM1": "C05 C04", "ruleDOM2": "C05 C04", "ruleMonthOrdinal": "C05", "ruleNamedMonth": "C05", "ruleYear": "C05",
     "ruleDOMMonth": "C05 C04 C02", "ruleDOMMonth2": "C05 C04 C02", "ruleMonthDOM": "C05 C04 C02",
@@ -72,7 +72,7 @@ def build_units(world):
             t.variant = (t.variant + "," if t.variant else "") + "line%d" % t.func.node.lineno
         # rules producing Interval values serve C07 through the auxiliary invariant
         units[u.name] = u
-    for mod in ("contracts.extra", "contracts.c19", "contracts.toplevel", "contracts.c13", "contracts.c15", "contracts.c16", "contracts.c17", "contracts.c11", "contracts.bridge"):
+    for mod in ("contracts.extra", "contracts.c19", "contracts.toplevel", "contracts.c13", "contracts.c15", "contracts.c16", "contracts.c17", "contracts.c11", "contracts.bridge", "contracts.edge"):
         try:
             m = __import__(mod, fromlist=["units"])
         except ImportError:
